@@ -110,10 +110,11 @@ function unquote_string(quoted_str) {
     // It's possible to use eval here to unqoute the quoted_column_name, but it would be a little barbaric, let's do it manually instead
     if (!quoted_str || quoted_str.length < 2)
         return null;
-    if (quoted_str[0] == "'" && quoted_str[quoted_str.length - 1] == "'") {
-        return quoted_str.substring(1, quoted_str.length - 1).replace(/\\'/g, "'").replace(/\\\\/g, "\\");
-    } else if (quoted_str[0] == '"' && quoted_str[quoted_str.length - 1] == '"') {
-        return quoted_str.substring(1, quoted_str.length - 1).replace(/\\"/g, '"').replace(/\\\\/g, "\\");
+    if ((quoted_str[0] == "'" && quoted_str[quoted_str.length - 1] == "'") || (quoted_str[0] == '"' && quoted_str[quoted_str.length - 1] == '"')) {
+        // This is the inverse of js_string_escape_column_name(): all escape sequences are resolved in a single left-to-right pass
+        return quoted_str.substring(1, quoted_str.length - 1).replace(/\\([^])/g, function(match, escaped_char) {
+            return {'n': '\n', 'r': '\r', 't': '\t'}[escaped_char] || escaped_char;
+        });
     } else {
         return null;
     }
